@@ -24,7 +24,7 @@ def run(rep):
     rep.rule = ("Validate.tla (PlusCal) models one conversion request - entry point (library convert(validate=True), CLI plain, --json, --skip_validate, --odk_validate, "
                 "--json --skip_validate) x valid/invalid form x validator outcome (exit 0 silent, exit 0 with stderr, exit 1|2 with diagnostics, exit 3 with arbitrary stderr, exit 255 silent, killed by SIGKILL|SIGTERM, java "
                 "absent, corrupt jar) x output file pre-existing or not x external choices or not - as the steps of the code (parse, create temp file, write, check java, "
-                "run validator, classify, finally-unlink, write outputs, report) over an abstract file system. TLC checks 8 invariants on all 576 configurations. Every "
+                "run validator, classify, finally-unlink, write outputs, report) over an abstract file system. TLC checks 8 invariants on all 624 configurations. Every "
                 "configuration is then executed against the real code in a private directory tree with a scripted stand-in java first on PATH; TLC (Trace_Validate) runs "
                 "the machine from the same configuration and requires the observed terminal facts (temp-dir residue, output path state and content, itemsets.csv, exception "
                 "class / JSON code, surfaced stderr, validator saw the file, cleaned diagnostics) to equal the machine's terminal state.")
@@ -35,7 +35,7 @@ def run(rep):
     r = tlc.model_check("Validate", cfg, workers=4, required_actions=("Parse", "CreateTmp", "RunValidator", "Classify", "Finally", "WriteOutput", "Report"), tag="mcval")
     if r["violation"]:
         raise tlc.MachineryError(f"Validate invariant {r['violation']} violated on the model")
-    rep.add_mc(r, "Validate: all 576 configurations, 8 invariants")
+    rep.add_mc(r, "Validate: all 624 configurations, 8 invariants")
     rep.exhaustive = True
     cases, g = tlc.generate("Gen_Validate", corpus._cfg("Gen_Validate.cfg", "SPECIFICATION Spec\nCONSTRAINT Emit\nCHECK_DEADLOCK FALSE\n"), tag="genval")
     rep.bounds["configurations"] = len(cases)
